@@ -149,6 +149,18 @@ pub fn parse_observe(text: &str) -> (bool, bool, J) {
     }
 }
 
+/// The Error variant the parser reports for a rejected text (name only), None when it accepts or panics.
+pub fn parse_error_variant(text: &str) -> Option<String> {
+    let owned = text.to_string();
+    match guarded(move || parse_expression(leak(&owned)).map(|_| ())) {
+        Ok(Err(e)) => {
+            let d = format!("{:?}", e);
+            Some(d.split(|c: char| !(c.is_alphanumeric() || c == '_')).next().unwrap_or("").to_string())
+        }
+        _ => None,
+    }
+}
+
 fn conforms(verdict: &str, exp_ast: &J, ok: bool, ast: &J) -> bool {
     match verdict {
         "MustAccept" => ok && ast == exp_ast,
@@ -171,6 +183,10 @@ pub fn replay(args: &[String]) {
     let mut out = Out::new(None);
     let (mut n, mut bad, mut skipped, mut unspec) = (0u64, 0u64, 0u64, 0u64);
     let mut by_verdict: HashMap<String, u64> = HashMap::new();
+    // informational projection: which Error variant a rejection carries (no listed property fixes it, so a
+    // difference is reported as drift, never as a violation)
+    let (mut variant_agree, mut variant_differ) = (0u64, 0u64);
+    let mut by_variant: HashMap<String, u64> = HashMap::new();
     for (idx, r) in recs.iter().enumerate() {
         let toks = r["toks"].as_array().unwrap();
         if !realizable(toks) {
@@ -188,13 +204,27 @@ pub fn replay(args: &[String]) {
         let abs = if ok { map_leaves(&ast, &|k, t| case.back.get(&(k.to_string(), t.to_string())).cloned().unwrap_or_else(|| format!("?{}", t))) } else { J::Null };
         // the specification's own machine must agree with the real parser wherever the verdict pins the outcome
         let good = !panicked && conforms(v, &r["ast"], ok, &abs);
+        if good && !ok && r["ast"][0] == "error" {
+            if let (Some(spec), Some(got)) = (r["ast"][1].as_str(), parse_error_variant(&case.text)) {
+                *by_variant.entry(got.clone()).or_insert(0) += 1;
+                if spec == got {
+                    variant_agree += 1;
+                } else {
+                    variant_differ += 1;
+                    if variant_differ <= 10 {
+                        out.line(&json!({"variant_drift": idx, "text": case.text, "spec": spec, "impl": got}));
+                    }
+                }
+            }
+        }
         if !good {
             bad += 1;
             out.line(&json!({"mismatch": idx, "text": case.text, "verdict": v, "why": if panicked {"panic"} else if ok {"tree or acceptance differs"} else {"rejected"},
                              "expected_ast": r["ast"], "got_ok": ok, "got_ast": abs, "panic": panicked}));
         }
     }
-    out.line(&json!({"summary": {"replayed": n, "mismatches": bad, "unrealizable": skipped, "unspecified": unspec, "by_verdict": by_verdict}}));
+    out.line(&json!({"summary": {"replayed": n, "mismatches": bad, "unrealizable": skipped, "unspecified": unspec, "by_verdict": by_verdict,
+                                 "variant_agree": variant_agree, "variant_differ": variant_differ, "by_variant": by_variant}}));
     out.flush();
 }
 
